@@ -105,11 +105,11 @@ define('C18', 'csv round trip', W('csv', 'io') + [fn('framing', 'unit_framing', 
        A_LIB + ['A2f: float(text) is treated as the exact real value of the literal', 'the string escaping of csv.dump and the unescaping of create_line_parser.parse_line (replace chains) are NOT under contract (outside solver reach): bounded tier only. '
                 'Under contract: _ends_with_closing_quote (closing quote iff preceded by an even run of escape characters; spec recursion esc_run supplied by instances), merge_escape_parts '
                 '(for every number of parts: argument unchanged, sep.join(result) == sep.join(parts) when every quote is closed, a prefix otherwise; spec fold flat and the str.join model supplied by '
-                'instances; loop invariant over the None | list open group by mode split; the closing-quote test through its contract; WHERE the group boundaries fall is bounded only) and the stream '
+                'instances; loop invariant over the None | list open group by mode split; the closing-quote test through its contract; step clauses for where a group opens / stays open / closes, native replay restricted to lines in the format the dumper writes) and the stream '
                 'encoder of dump_to_file. Refutations of the two string contracts are validated natively; an obligation the solvers leave open is reported as refuted only with a real failing '
                 'input found by the native search of the contract clauses (DESIGN 12.14), else it stays undecided'], 'DESIGN 7/C18',
-       level='other', level_why='partial: numeric field parsers, parser selection, the closing-quote test, the quoted-field merging loop (text preservation, all lengths), the stream encoder and the file pipeline are '
-       'discharged deductively; the string escaping / unescaping replace chains and the position of the group boundaries are outside solver reach and are checked exhaustively on a stated small scope only')
+       level='other', level_why='partial: numeric field parsers, parser selection, the closing-quote test, the quoted-field merging loop (text preservation and group boundaries, all lengths), the stream encoder and the file pipeline are '
+       'discharged deductively; the string escaping / unescaping replace chains are outside solver reach and are checked exhaustively on a stated small scope only')
 define('C19', 'json lines round trip', W('json', 'codec', 'compression', 'io') + [fn('framing', 'unit_framing', which='line')] + LEAN('L4') + [bounded('io', 'check_c19')], A_LIB, 'DESIGN 7/C19')
 define('C20', 'parquet round trip', W('parquet') + HELP('batch') + [op('scalar', 'scan_mux'), op('scalar', 'filter_mux'), op('scalar', 'map_mux')] + PLAIN('scan') + [bounded('io', 'check_c20')],
        A_LIB + ['_load_file (pyarrow batch iteration) is covered by the bounded tier only'], 'DESIGN 7/C20')
